@@ -343,3 +343,64 @@ variant('t-close-sequence-flat-try', ['C11'], 'rsocket/rsocket_base.py',
             await self._handler.on_close(self)
         finally:
             await self._stop_tasks()""", kind='twin')
+
+# ----------------------------------------------------------------------------------------------- C13
+variant('b-id-step-one', ['C13', 'C08'], 'rsocket/stream_control.py',
+        "self._current_stream_id = (self._current_stream_id + 2) & self._maximum_stream_id",
+        "self._current_stream_id = (self._current_stream_id + 1) & self._maximum_stream_id", ('C13.a', 'parity'))
+variant('b-id-mask-even', ['C13'], 'rsocket/stream_control.py',
+        "MAX_STREAM_ID = 0x7FFFFFFF", "MAX_STREAM_ID = 0x7FFFFFFE", ('C13.a', ''))
+variant('b-server-first-id-odd', ['C13'], 'rsocket/rsocket_server.py',
+        "    def _get_first_stream_id(self) -> int:\n        return 2", "    def _get_first_stream_id(self) -> int:\n        return 1",
+        ('C13.a', 'RSocketServer first stream id'))
+variant('b-alloc-extra-advance', ['C13'], 'rsocket/stream_control.py',
+        """                or self._current_stream_id in self._streams
+            )
+""", """                or self._current_stream_id in self._streams
+            )
+            if self._current_stream_id == self._first_stream_id:
+                self._increment_stream_id()
+""", ('C13.b', 'returned id'))
+variant('b-alloc-skips-zero-check', ['C13'], 'rsocket/stream_control.py',
+        """            available_stream_id_found = not (
+                self._current_stream_id == CONNECTION_STREAM_ID
+                or self._current_stream_id in self._streams
+            )""", """            available_stream_id_found = self._current_stream_id not in self._streams""",
+        ('C13.b', 'returned id'))
+variant('b-alloc-gives-up-early', ['C13'], 'rsocket/stream_control.py',
+        "if attempt_counter > self._maximum_stream_id / 2:", "if attempt_counter > self._maximum_stream_id / 4:",
+        ('C13.c', 'attempt bound'))
+variant('b-stream-no-inuse-check', ['C13'], 'rsocket/rsocket_base.py',
+        """        stream_id = frame.stream_id
+        self._stream_control.assert_stream_id_available(stream_id)
+        handler = self._handler
+
+        publisher = await handler.request_stream""", """        stream_id = frame.stream_id
+        handler = self._handler
+
+        publisher = await handler.request_stream""", ('C13.d', 'handle_request_stream'))
+variant('b-inuse-wrong-code', ['C13'], 'rsocket/exceptions.py',
+        "        super().__init__(ErrorCode.REJECTED)", "        super().__init__(ErrorCode.INVALID)", ('C13.d', ''))
+variant('t-alloc-while-true', ['C13'], 'rsocket/stream_control.py',
+        """        available_stream_id_found = False
+        while not available_stream_id_found:
+            if attempt_counter > self._maximum_stream_id / 2:
+                raise RSocketStreamAllocationFailure()
+
+            self._increment_stream_id()
+            attempt_counter += 1
+
+            available_stream_id_found = not (
+                self._current_stream_id == CONNECTION_STREAM_ID
+                or self._current_stream_id in self._streams
+            )
+
+        return self._current_stream_id""", """        while True:
+            if attempt_counter > self._maximum_stream_id / 2:
+                raise RSocketStreamAllocationFailure()
+
+            self._increment_stream_id()
+            attempt_counter += 1
+
+            if self._current_stream_id != CONNECTION_STREAM_ID and self._current_stream_id not in self._streams:
+                return self._current_stream_id""", kind='twin')
